@@ -261,7 +261,9 @@ def run_random(spec, out):
             varinfo=draw(st.sampled_from([0, 1, 3])),
             version=draw(st.sampled_from([1, 2])),
             kw=draw(st.sampled_from([0, 0, 0, 1, 2, 3, 5, 9, 31])),
-            poison=draw(st.sampled_from([0, 0, 1, 2, 3, 4, 7, 11, 14])),
+            poison=draw(st.sampled_from(
+                [1, 2, 3, 4, 5, 7, 11, 14, 20, 27] if spec.get('poison_only')
+                else [0, 0, 1, 2, 3, 4, 7, 11, 14])),
             comments=draw(st.booleans()))
 
     @hypothesis.seed(spec['seed'])
